@@ -25,7 +25,8 @@ mixed do_op (string s);
 
 // destruct(carrier) in progress: the driver applies this in every inventory item before it removes the carrier from
 // the heart-beat list; the script may touch any heart beat, including the dying carrier's ("wake on inventory change").
-// Only non-failing, non-destructing operations are run here (restrict_destruct would refuse destruct of others).
+// No destructing operations here (restrict_destruct would refuse destruct of others); an uncaught error (err) leaves
+// destruct_object: the carrier and the remaining items stay alive.
 int move_or_destruct (object dest) {
   string me = oid;
   string s = "/c11/reg"->script (me, "md");
@@ -34,7 +35,7 @@ int move_or_destruct (object dest) {
   if (stringp (s))
     foreach (string op in explode (s, ";")) {
       string k = explode (op, ",")[0];
-      if (k == "shb" || k == "q" || k == "clone" || k == "flag" || k == "hbs") do_op (op);
+      if (k == "shb" || k == "q" || k == "clone" || k == "flag" || k == "hbs" || k == "err" || k == "cerr") do_op (op);
     }
   VL ("hookend " + me);
   return 0;   // not moved: the driver destructs this object
